@@ -217,16 +217,18 @@ static void exec_op(Task* t, OpRec& rec, bool preempt) {
         break;
     }
     case OP_KEYGEN: {
-        size_t n = (size_t)(op.b % 4097); if (!n) n = 1;
-        u8* key = (u8*)malloc(n + KEY_GUARD); memset(key, 0x77, n + KEY_GUARD);
+        size_t n = keygen_buf(op.b), off = keygen_off(op.b), told = keygen_size(op.b);
+        u8* base = (u8*)malloc(n + KEY_GUARD + 16); memset(base, 0x77, n + KEY_GUARD + 16);
+        u8* key = base + 8 + off;                                  // malloc aligns to 16: offsets 1..7 are misaligned for every word size
         rec.bufs.push_back({key, n, BUF_KEY});
         t->watch_p = key; t->watch_n = n; t->watch_hits = 0; t->watch_armed = false;
-        enter([&] { polyseed_keygen(seed, (polyseed_coin)(op.a & 2047), n, key); });
+        enter([&] { polyseed_keygen(seed, (polyseed_coin)(op.a & 2047), told, key); });
         t->watch_p = nullptr;
         rec.ret = t->watch_hits;
         rec.out.assign(key, key + n);
-        for (size_t i = n; i < n + KEY_GUARD; ++i) if (key[i] != 0x77) rec.guard_broken = true;
-        free(key);
+        for (size_t i = n; i < n + KEY_GUARD + 8 - off; ++i) if (key[i] != 0x77) rec.guard_broken = true;
+        for (u8* q = base; q < key; ++q) if (*q != 0x77) rec.guard_broken = true;
+        free(base);
         break;
     }
     case OP_GETB: enter([&] { rec.ret = polyseed_get_birthday(seed); }); break;
@@ -610,7 +612,7 @@ struct Checker {
             for (auto& e : rec.ev) if (e.kind == EV_KDF) { k = &e; ++nk; }
             if (nk != 1) { fail(A_KDF_KEYGEN, rec.idx, strf("polyseed_keygen called the KDF %d times, expected exactly once", nk)); return; }
             u8 pw[32], salt[32]; model::keygen_inputs(it->second, (unsigned)op.a & 2047, pw, salt);
-            size_t ksz = (size_t)(op.b % 4097); if (!ksz) ksz = 1;
+            size_t ksz = keygen_size(op.b);
             if (k->reading != 32 || k->a != bytes(pw, pw + 32)) { fail(A_KDF_KEYGEN, rec.idx, strf("KDF password %s (length %llu), expected the 19 secret bytes zero-padded to 32: %s", hexs(k->a).c_str(), (unsigned long long)k->reading, hexs(pw, 32).c_str())); return; }
             if (k->name != "saltlen=32" || k->b != bytes(salt, salt + 32)) { fail(A_KDF_KEYGEN, rec.idx, "KDF salt " + hexs(k->b) + " (" + k->name + "), expected " + hexs(salt, 32)); return; }
             if (k->n != 10000) { fail(A_KDF_KEYGEN, rec.idx, strf("KDF iterations %llu, expected 10000", (unsigned long long)k->n)); return; }
@@ -944,6 +946,8 @@ static RunResult run_preempt(const Plan& p, const RunOpts& o) {
         return r;
     }
     clear_slots_and_free(r);
+    if (p.prop == "C15")
+        for (auto& b : E.blocks) if (b.live) { r.v.found = true; r.v.prop = p.prop; r.v.oracle = "model"; r.v.cls = "ledger"; r.v.op = (int)p.ops.size(); r.v.msg = strf("blk%d (taken by task %d) is still allocated after every seed was freed", b.id, b.task); r.log_hash = log.h; return r; }
     // ---- serial reference: the same scripts, each alone, same binary, same library state
     std::vector<TaskScript> solo; build(solo);
     // block numbering restarts so that the transcripts are comparable
